@@ -25,6 +25,29 @@ def jsonable(x):
     return repr(x)
 
 
+def start_line_coverage(root):
+    """First-hit line coverage of the library's own sources (pure build only): every LINE event
+    records (file, line) once and disables itself, so the cost is paid once per line."""
+    mon = sys.monitoring
+    tool = mon.COVERAGE_ID
+    hits = {}
+    try:
+        mon.use_tool_id(tool, "asynqmon-linecov")
+    except ValueError:
+        return None
+    prefix = root + os.sep
+
+    def on_line(code, line):
+        fn = code.co_filename
+        if fn.startswith(prefix) and "/tests/" not in fn:
+            hits.setdefault(fn[len(prefix):], set()).add(line)
+        return mon.DISABLE
+
+    mon.register_callback(tool, mon.events.LINE, on_line)
+    mon.set_events(tool, mon.events.LINE)
+    return hits
+
+
 def main():
     unit_path, out_path = sys.argv[1], sys.argv[2]
     with open(unit_path) as f:
@@ -34,10 +57,13 @@ def main():
     res = {"evaluations": 0, "nontrivial": [], "counters": {}, "sets": {}, "violations": [], "faults": [], "samples": []}
     t0 = time.time()
     try:
+        bdir = unit["build_dir"]
+        cov = None
+        if unit["build"] == "pure" and hasattr(sys, "monitoring") and os.environ.get("VERIF_LINECOV", "1") != "0":
+            cov = start_line_coverage(os.path.join(os.path.realpath(bdir), "asynq"))
         import asynq
         import asynq.scheduler
 
-        bdir = unit["build_dir"]
         if not os.path.realpath(asynq.__file__).startswith(os.path.realpath(bdir)):
             raise RuntimeError("asynq imported from %s, expected under %s" % (asynq.__file__, bdir))
         compiled = asynq.scheduler.__file__.endswith(".so")
@@ -73,6 +99,8 @@ def main():
         for k in r:
             if k not in res:
                 res[k] = r[k]
+        if cov is not None:
+            res["linecov"] = {k: sorted(v) for k, v in cov.items()}
     except BaseException as e:
         res["faults"].append("worker crashed: %r\n%s" % (e, traceback.format_exc()[-3000:]))
     res["wall_s"] = time.time() - t0
